@@ -162,8 +162,9 @@ def integrate_spin(expr: Expr, target_idx: str, target_spin: str) -> Expr:
                 if not valid:
                     continue
                 if idx_map["a"] & idx_map["b"]:
-                    raise ValueError("Found invalid allowed spin block "
-                                     f"{block} for {obj}.")
+                    # an index that occurs twice on the object would need
+                    # two different spins: the block does not contribute
+                    continue
                 obj_spin_idx_maps.append(idx_map)
             if not obj_spin_idx_maps:
                 term_vanishes = True
@@ -308,10 +309,13 @@ def allowed_spin_blocks(expr: Expr, target_idx: str) -> tuple[str]:
                 idx_map = {}
                 for spin, idx in zip(block, obj_indices):
                     if idx in idx_map and idx_map[idx] != spin:
-                        raise ValueError("Found invalid allowed spin block "
-                                         f"{block} for {obj}.")
+                        # the repeated index would need two different
+                        # spins: the block does not contribute
+                        idx_map = None
+                        break
                     idx_map[idx] = spin
-                object_idx_maps.append(idx_map)
+                if idx_map is not None:
+                    object_idx_maps.append(idx_map)
             term_idx_maps.append((object_idx_maps, n_target))
         # - sort the allowed_tensor_blocks such that tensors with a high
         #   number of target indices are preferred
